@@ -59,9 +59,9 @@ class Journal:
         return [e for e in self.log if e[0] == 1]
 
 
-def run_transition(names, cs, action, own, seed=0, script=None):
+def run_transition(names, cs, action, own, seed=0, script=None, share=None):
     """-> (kind, value, log, tape): kind 'ok' (value = canonical next state) or 'err' (value = exception name)"""
-    s = wire.mkstate(cs)
+    s = wire.mkstate(cs, share=(seed % 3 == 1) if share is None else share)      # one case in three: equal stateless objects are shared instances
     with Journal(seed, script) as j:
         try:
             for n in names:
